@@ -4,6 +4,7 @@ import ast
 
 from ..model import Func, AnalysisError
 from .. import queries as Q
+from . import opt
 
 RESERVE = 'BuildDirs.started_building_file'
 
@@ -49,7 +50,8 @@ def _refuted(ctx, facts):
 def apply_rules(ctx, rc):
     R = ctx.R
     A = apply_routine(ctx)
-    sg = ctx.E.super(A, lambda g: False)
+    sg = ctx.helpers_graph(A, stop=(R.builder + '._make_dirs',
+                                   R.builder + opt('._ensure_dirs_case')))
     # A1: only outputs that did not raise are reserved / get directories
     res = [x for x in sg.nodes if Q.is_call(x, RESERVE)]
     mk = [x for x in sg.nodes if Q.is_call(x, R.builder + '._make_dirs')]
